@@ -1251,6 +1251,9 @@ class NestedSampler(BaseNestedSampler):
         # Must be set before updating the state since this can checkpoint the
         # sampler and a sampler without live points that is not finalised
         # would draw new live points when resumed.
+        # The sampling time is no longer updated once the sampler is
+        # finalised, so account for the time up to this point first.
+        self.update_sampling_time()
         self.finalised = True
         self.update_state(force=True)
 
